@@ -1,7 +1,8 @@
 SPECIFICATION Spec
 CONSTANTS
   MaxSigs = 4
-  Tools = {"none", "key", "eth", "manual_ok", "manual_bad", "manual_spell"}
+  MaxSteps = 3
+  Tools = {"none", "key", "eth", "manual_ok", "manual_bad", "manual_spell", "message"}
 INVARIANT AuthorizedIffK
 INVARIANT EmitB
 CHECK_DEADLOCK FALSE
